@@ -39,7 +39,7 @@ func init() {
 			"PathOf for every h in [0,32] at every from; PathsOf on sorted/unsorted key lists with repeated keys and repeated paths, dedup on/off, incl. all-ones paths. " +
 			"Non-trivial+distinct = hash of (string, from, w) with k >= 1 (at least one bit extracted); PathsOf: hash of (keys, from, h, dedup) with >= 2 keys.",
 		Assumptions: []string{"from >= 0 and 0 <= w <= 32 (stated domain)", "oracle reads bits one at a time, MSB of each byte first"},
-		Flavours:    releaseAnd386,
+		Flavours:    releaseAnd386Debug,
 		Required: []string{"string>=2^28-bytes", "long-run/calls>=100000-per-function", "arguments-in-read-only-memory", "k=0/beyond-end", "k<w/clamped", "k=w", "from/aligned", "from/unaligned", "span/1", "span/2", "span/3", "span/4", "span/5",
 			"w=0", "w=32", "string>=50-bytes", "from>=MaxInt32-32", "pathsof/dedup-hit", "pathsof/dedup-off-repeat", "pathsof/all-ones-first", "pathof/h=0", "pathof/h=32"},
 		Families: func(c *mon.Config) []mon.Family {
@@ -68,7 +68,7 @@ func init() {
 				{Name: "pathsof-big", Env: 3, N: 7 * c.Pick(2, 40), Run: c11PathsOfBig},
 				{Name: "pathsof-zoo", Env: 10, N: c.Pick(15000, 3000000), Run: c11PathsOfZoo},
 				lrFamily(c11LongRun),
-				{Name: "huge-string", NoCold: true, N: b2i(c.Base() != "386"), Run: c11HugeString},
+				{Name: "huge-string", NoCold: true, N: 1, Run: c11HugeString},
 			}
 		},
 	})
